@@ -86,3 +86,26 @@ Proof.
 Qed.
 
 End Access.
+
+(* ---- the polynomial API panics exactly on the empty polynomial (eval, derivative, trim) -- every arithmetic *)
+Section Panics.
+Context {A : Arith}.
+
+Lemma peval_total (p : list A) x : p <> [] -> exists a, peval p x = Ok a.
+Proof.
+  intros H. unfold peval. destruct (rev p) as [|c rest] eqn:E.
+  - apply (f_equal (@length _)) in E. rewrite rev_length in E. destruct p; [congruence|discriminate].
+  - eexists; reflexivity.
+Qed.
+
+Lemma poly_panics_exactly_lemma (p : list A) (x : A) :
+  (p = [] -> peval p x = Panic Unwrap /\ pderiv p = Panic Unwrap /\ ptrim p = Panic Underflow) /\
+  (p <> [] -> (exists a, peval p x = Ok a) /\ (exists d, pderiv p = Ok d) /\ (exists t, ptrim p = Ok t)).
+Proof.
+  split.
+  - intros ->. auto.
+  - intros H. split; [now apply peval_total|]. destruct p as [|a t]; [congruence|].
+    split; eexists; reflexivity.
+Qed.
+
+End Panics.
